@@ -112,17 +112,17 @@ def create_sampling_method(
         if left < 0 < right:
 
             def states(k):
-                return -pivot.value + np.array(k)
+                return -pivot.value + np.array(k, dtype=int)
 
         elif left == 0:
 
             def states(k):
-                return np.array(k)
+                return np.array(k, dtype=int)
 
         elif right == 0:
 
             def states(k):
-                return -pivot.value + np.array(k)
+                return -pivot.value + np.array(k, dtype=int)
 
     elif is_levy_copula:
         if method == SamplingMethod.BINARYSEARCHTREEADAPTED:
